@@ -1090,11 +1090,16 @@ IDENT_SYMBOLS = {'Identifier', 'PtrIdentifier', 'AnyIdentifier', 'IDENT'}
 
 def identifier_fields(repo: Repo, gm) -> Dict[Tuple[str, str], str]:
     """(qlast class, field) -> reduction, for fields a reduction fills with
-    the text of an identifier token (`kids[i].val` where the i-th symbol of
-    the production is Identifier / PtrIdentifier / AnyIdentifier).  The
-    lexer has already removed the backticks, so the value is the bare name
-    and may contain anything a quoted identifier may contain."""
+    the text of an identifier token: `kids[i].val` where the i-th symbol of
+    the production is Identifier / PtrIdentifier / AnyIdentifier, or an
+    attribute of another nonterminal's value that is itself filled that way
+    (`kids[1].val.alias` with OptionallyAliasedExpr.alias <- AliasedExpr
+    .alias <- Identifier), followed to a fixpoint.  The lexer has already
+    removed the backticks, so the value is the bare name and may contain
+    anything a quoted identifier may contain."""
     out: Dict[Tuple[str, str], str] = {}
+    nt_attrs: Dict[str, Set[str]] = {}      # nonterminal -> ident attrs
+    reducers = []
     for mn in gm:
         m = repo.modules.get(mn)
         if m is None:
@@ -1102,36 +1107,71 @@ def identifier_fields(repo: Repo, gm) -> Dict[Tuple[str, str], str]:
         for cls in [c for c in ast.walk(m.tree)
                     if isinstance(c, ast.ClassDef)]:
             for fn in cls.body:
-                if not (isinstance(fn, ast.FunctionDef)
-                        and fn.name.startswith('reduce_')):
-                    continue
+                if isinstance(fn, ast.FunctionDef) and fn.name.startswith(
+                        'reduce_'):
+                    reducers.append((cls, fn))
+    for _round in range(4):
+        before = (len(out), sum(len(v) for v in nt_attrs.values()))
+        for cls, fn in reducers:
+            doc = ast.get_docstring(fn) or ''
+            if '%reduce' in doc:
+                syms = doc.split('%reduce', 1)[1].replace('\\', ' ').split()
+            else:
                 syms = fn.name[len('reduce_'):].split('_')
-                pos = [x.arg for x in fn.args.args[1:]]
-                var = fn.args.vararg.arg if fn.args.vararg else None
+            pos = [x.arg for x in fn.args.args[1:]]
+            var = fn.args.vararg.arg if fn.args.vararg else None
+            local = {}
+            for a_ in ast.walk(fn):
+                if isinstance(a_, ast.Assign) and len(a_.targets) == 1 and \
+                        isinstance(a_.targets[0], ast.Name):
+                    local[a_.targets[0].id] = a_.value
 
-                def sym_of(e):
-                    if isinstance(e, ast.Attribute) and e.attr in (
-                            'val', 'clean_value'):
-                        b = e.value
-                        if isinstance(b, ast.Subscript) and isinstance(
-                                b.value, ast.Name) and b.value.id == var \
-                                and isinstance(b.slice, ast.Constant) and \
-                                isinstance(b.slice.value, int):
-                            i = b.slice.value
-                            return syms[i] if -len(syms) <= i < len(syms) \
-                                else None
-                        if isinstance(b, ast.Name) and b.id in pos:
-                            i = pos.index(b.id)
-                            return syms[i] if i < len(syms) else None
-                    return None
-                for c in ast.walk(fn):
-                    if isinstance(c, ast.Call) and dotted(c.func) and \
-                            dotted(c.func).startswith('qlast.'):
-                        k = dotted(c.func).split('.', 1)[1]
-                        for kw in c.keywords:
-                            if kw.arg and sym_of(kw.value) in IDENT_SYMBOLS:
-                                out.setdefault((k, kw.arg),
-                                               f'{cls.name}.{fn.name}')
+            def kid_sym(b):
+                if isinstance(b, ast.Subscript) and isinstance(
+                        b.value, ast.Name) and b.value.id == var and \
+                        isinstance(b.slice, ast.Constant) and isinstance(
+                        b.slice.value, int):
+                    i = b.slice.value
+                    return syms[i] if -len(syms) <= i < len(syms) else None
+                if isinstance(b, ast.Name) and b.id in pos:
+                    i = pos.index(b.id)
+                    return syms[i] if i < len(syms) else None
+                return None
+
+            def is_ident(e, depth=0):
+                if depth > 3:
+                    return False
+                if isinstance(e, ast.Name) and e.id in local:
+                    return is_ident(local[e.id], depth + 1)
+                if isinstance(e, ast.Attribute) and e.attr in (
+                        'val', 'clean_value'):
+                    return kid_sym(e.value) in IDENT_SYMBOLS
+                if isinstance(e, ast.Attribute):
+                    v = e.value
+                    if isinstance(v, ast.Name) and v.id in local:
+                        v = local[v.id]
+                    if isinstance(v, ast.Attribute) and v.attr == 'val':
+                        sy = kid_sym(v.value)
+                        return sy is not None and e.attr in nt_attrs.get(
+                            sy, ())
+                return False
+            for c in ast.walk(fn):
+                if not isinstance(c, ast.Call):
+                    continue
+                d = dotted(c.func)
+                is_val = any(isinstance(a_, ast.Assign) and a_.value is c
+                             and norm(a_.targets[0]) == 'self.val'
+                             for a_ in ast.walk(fn))
+                for kw in c.keywords:
+                    if not kw.arg or not is_ident(kw.value):
+                        continue
+                    if d and d.startswith('qlast.'):
+                        out.setdefault((d.split('.', 1)[1], kw.arg),
+                                       f'{cls.name}.{fn.name}')
+                    if is_val:
+                        nt_attrs.setdefault(cls.name, set()).add(kw.arg)
+        if (len(out), sum(len(v) for v in nt_attrs.values())) == before:
+            break
     return out
 
 
